@@ -1150,6 +1150,31 @@ def make_builtin_open(simos):
             flags |= _os.O_CREAT | _os.O_EXCL
         if 'a' in m:
             flags |= _os.O_CREAT | _os.O_APPEND
-        fd = simos.open(file, flags, 0o666)
-        return simos.fdopen(fd, mode, buffering, encoding, errors, newline)
+        if opener is None:
+            fd = simos.open(file, flags, 0o666)
+            return simos.fdopen(fd, mode, buffering, encoding, errors, newline)
+        # io.open: the mode string is validated before the opener runs; the opener is handed
+        # the flags derived from the mode (plus O_CLOEXEC) and must return a descriptor, which
+        # the file object then owns -- it is closed again if the object cannot be put together.
+        if m - set('axrwb+t') or len(mode) > len(m):
+            raise ValueError('invalid mode: %r' % mode)
+        if 't' in m and 'b' in m:
+            raise ValueError("can't have text and binary mode at once")
+        if len(m & set('rwax')) != 1:
+            raise ValueError('must have exactly one of create/read/write/append mode')
+        if 'b' in m and encoding is not None:
+            raise ValueError("binary mode doesn't take an encoding argument")
+        fd = opener(file, flags | getattr(_os, 'O_CLOEXEC', 0))
+        if not isinstance(fd, int):
+            raise TypeError('expected integer from opener')
+        if fd < 0:
+            raise ValueError('opener returned %d' % fd)
+        try:
+            return simos.fdopen(fd, mode, buffering, encoding, errors, newline)
+        except BaseException:
+            try:
+                simos.close(fd)
+            except OSError:
+                pass
+            raise
     return sim_open
